@@ -145,6 +145,16 @@ def correspond(ctx):
                 r_, c_ = rng.randrange(2), rng.randrange(2)
                 cell = tbl.cell(r_, c_)
                 c.prior = prior_state(rng, cell.text_frame)
+                hist = rng.random()
+                if hist < 0.1:
+                    # the same string is already what the cell READS, put there at run level (one run holding the line feeds
+                    # as characters): the cell-level assignment must still split it into paragraphs
+                    cell.text_frame.text = ""
+                    cell.text_frame.paragraphs[0].add_run().text = s
+                    c.prior += "+same-string-at-run-level"
+                elif hist < 0.15:
+                    cell.text = s
+                    c.prior += "+same-string-twice"
                 cell.text = s
                 c.loc = ("cell", prs.slides.index(slide), c_tblshape, r_, c_)
                 tf = cell.text_frame
@@ -175,6 +185,10 @@ def correspond(ctx):
                     elif hist < 0.15:
                         tf.text = s
                         c.prior += "+same-string-twice"
+                    elif hist < 0.25:
+                        tf.text = ""
+                        tf.paragraphs[0].add_run().text = s   # run level keeps a line feed as a character
+                        c.prior += "+same-string-at-run-level"
                     if level == "shape":
                         shp.text = s
                     else:
